@@ -98,8 +98,8 @@ func init() {
 		_, _, vn, vs := x.ssHeaps(et)
 		ph := x.heapTerm(st, "SSP", "(Array Int (Array Str Bool))")
 		vh := x.heapTerm(st, vn, vs)
-		st.heaps["SSP"] = mkIte(ok, mkStore(ph, store.S, mkStore(mkSelect(ph, store.S), key.S, tTrue)), ph)
-		st.heaps[vn] = mkIte(ok, mkStore(vh, store.S, mkStore(mkSelect(vh, store.S), key.S, x.tc.pack(x, val))), vh)
+		x.setHeap(st, "SSP", mkIte(ok, mkStore(ph, store.S, mkStore(mkSelect(ph, store.S), key.S, tTrue)), ph))
+		x.setHeap(st, vn, mkIte(ok, mkStore(vh, store.S, mkStore(mkSelect(vh, store.S), key.S, x.tc.pack(x, val))), vh))
 		return single(st, err)
 	}
 	// Delete(key string) error
@@ -108,7 +108,7 @@ func init() {
 		err := x.freshErr(st, "ss.Delete.err")
 		ok := mkEq(err.S, "0")
 		ph := x.heapTerm(st, "SSP", "(Array Int (Array Str Bool))")
-		st.heaps["SSP"] = mkIte(ok, mkStore(ph, store.S, mkStore(mkSelect(ph, store.S), key.S, tFalse)), ph)
+		x.setHeap(st, "SSP", mkIte(ok, mkStore(ph, store.S, mkStore(mkSelect(ph, store.S), key.S, tFalse)), ph))
 		return single(st, err)
 	}
 
